@@ -679,9 +679,9 @@ Proof. intros a k V _ D. exact (Blots.proofs.DisplayNumDischarge5.log10_floor_mo
 
 (* ---- how valid_expr is tied to the parser: the ONE place where the text -> AST model (PegToItems.v) creates a number is
         number_item (decimal tokens: Rust's FromStr = rn_decimal; 0x / 0b tokens: the repaired accumulator loop), and every
-        number it creates is a valid binary64; Pratt.v moves the INum item into ENum unchanged.  (A theorem "the AST of every
-        accepted text satisfies valid_expr" over the whole of PegToItems + Pratt is NOT proved; the ALL stream evaluates
-        valid_progb on every parsed program.) ---- *)
+        number it creates is a valid binary64; Pratt.v moves the INum item into ENum unchanged.  (The theorem "the AST of every
+        accepted text satisfies valid_expr" over the whole of PegToItems + Pratt is C01_parsed_program_valid below (PF2); the
+        ALL stream also evaluates valid_progb on every parsed program.) ---- *)
 Require Import Blots.NumText Blots.PrattTypes Blots.PegToItems Blots.proofs.AllValidLit.
 Theorem C01_parsed_number_literal_valid : forall tok x, number_item tok = INum x -> valid_num x.
 Proof. exact number_item_valid. Qed.
